@@ -383,6 +383,17 @@ pub fn run(ctx: &Ctx) -> i32 {
             }
             sp.layers.push(l);
         }
+        // sixth round: a last frame in which most of the cels come back as LINKED cels (fields as Aseprite writes them:
+        // those of the target) - a hidden group hides a linked cel as it hides any other
+        let link_frame = sp.durations.len() as u16;
+        sp.durations.push(100);
+        let celled: Vec<u16> = sp.cels.keys().filter(|k| k.0 == cel_frame).map(|k| k.1).collect();
+        for k in celled {
+            if rng.chance(2, 3) {
+                let t = sp.cels[&(cel_frame, k)].clone();
+                sp.cels.insert((link_frame, k), CelM { x: t.x, y: t.y, opacity: t.opacity, content: CelContentM::Link(cel_frame), ud: None });
+            }
+        }
         let mut r2 = Rng::new(i);
         let mut v = Variation::none();
         v.default_storage = if i % 2 == 0 { Storage::Raw } else { Storage::Zlib(6) };
@@ -428,12 +439,16 @@ pub fn run(ctx: &Ctx) -> i32 {
                     }
                     res.leaves += 2;
                 }
-                let got = crate::val::Img::from_rgba(&ase.frame(cel_frame as u32).image(), true);
-                let want = crate::refrender::render_frame(&sp, cel_frame);
-                if let Some(d) = crate::val::diff(&crate::val::V::Img(got), &crate::val::V::Img(want)) {
-                    let hidden_celled: Vec<usize> = (0..n).filter(|k| !visible[*k] && sp.cels.contains_key(&(cel_frame, *k as u16))).collect();
-                    res.violations.push(Violation::new("hidden-layer-contributes-or-visible-missing|stacked", format!("frame image differs from the composition of the visible layers only: {} (levels {:?} flags {:?}; hidden layers with cels: {:?})", d, levels, flags, hidden_celled)).with_input(&bytes).with_extra(json!({"levels": levels, "flags": flags})));
+                for fr in [cel_frame, link_frame] {
+                    let got = crate::val::Img::from_rgba(&ase.frame(fr as u32).image(), true);
+                    let want = crate::refrender::render_frame(&sp, fr);
+                    if let Some(d) = crate::val::diff(&crate::val::V::Img(got), &crate::val::V::Img(want)) {
+                        let hidden_celled: Vec<usize> = (0..n).filter(|k| !visible[*k] && sp.cels.contains_key(&(fr, *k as u16))).collect();
+                        res.violations.push(Violation::new(if fr == cel_frame { "hidden-layer-contributes-or-visible-missing|stacked" } else { "hidden-layer-contributes-or-visible-missing|stacked-linked-cels" }, format!("frame {} image differs from the composition of the visible layers only: {} (levels {:?} flags {:?}; hidden layers with cels: {:?})", fr, d, levels, flags, hidden_celled)).with_input(&bytes).with_extra(json!({"levels": levels, "flags": flags})));
+                        break;
+                    }
                 }
+                res.count("stacked_linked_cels", sp.cels.keys().filter(|k| k.0 == link_frame).count() as u64);
                 res.leaves += w as u64 * h as u64;
                 res.count("stacked_tilemap_leaves", res_tilemap_leaves);
                 res.count("stacked_hidden_celled_layers", (0..n).filter(|k| !visible[*k] && sp.cels.contains_key(&(cel_frame, *k as u16))).count() as u64);
